@@ -45,6 +45,12 @@ type c05Out struct {
 // arity: number of components given (1..3); pre includes its leading '-' or is "".
 func c05Spec(eco, construct, xs, ys, zs, pre string, arity int) c05Out {
 	x, y, z := num(xs), num(ys), num(zs)
+	if arity < 2 {
+		y = 0
+	}
+	if arity < 3 {
+		z = 0
+	}
 	base := xs
 	if arity >= 2 {
 		base += "." + ys
@@ -71,17 +77,6 @@ func c05Spec(eco, construct, xs, ys, zs, pre string, arity int) c05Out {
 			o.hi = dot3(0, y+1, 0) + suffix
 		default:
 			o.hi = dot3(0, 0, z+1) + suffix
-		}
-	case "cargo bare":
-		o.rng = base + pre
-		o.lo = full + pre
-		switch {
-		case x > 0 || arity == 1:
-			o.hi = dot3(x+1, 0, 0)
-		case y > 0 || arity == 2:
-			o.hi = dot3(0, y+1, 0)
-		default:
-			o.hi = dot3(0, 0, z+1)
 		}
 	case "npm tilde", "cargo tilde":
 		o.rng = "~" + base + pre
@@ -233,12 +228,14 @@ func c05Short[V univers.Version[V], VR univers.VersionRange[V]](e univers.Ecosys
 	vv.Assume(elo == nil)
 	vhi, ehi := e.NewVersion(sp.hi)
 	vv.Assume(ehi == nil)
+	vv.Reached()
 	vv.Assume(!(sp.skipHiPre && preOf(probe, sp.hi)))
 	vv.Assume(!(sp.skipLoPre && preOf(probe, sp.lo)))
-	vv.Assume(!vv.Known("KF-C05-cargo-prerelease-base", e.Name() == "cargo" && pre != ""))
-	vv.Assume(!vv.Known("KF-C05-npm-caret-00z", e.Name() == "npm" && construct == "caret" && arity == 3 && num(xs) == 0 && num(ys) == 0))
-	vv.Assume(!vv.Known("KF-C05-pypi-compatible-upper", e.Name() == "pypi" && construct == "compatible" && arity == 2))
 	vv.Assume(!vv.Known("KF-C05-hex-pessimistic-two", e.Name() == "hex" && construct == "pessimistic" && arity == 2))
+	vv.Assume(!vv.Known("KF-C05-conan-caret-zero-major", e.Name() == "conan" && construct == "caret" && num(xs) == 0))
+	vv.Assume(!vv.Known("KF-C05-npm-partial-base-rejected", e.Name() == "npm" && arity < 3 && construct != "xrange"))
+	vv.Assume(!vv.Known("KF-C05-composer-caret-zero-zero", e.Name() == "composer" && construct == "caret" && arity == 2 && num(xs) == 0 && num(ys) == 0))
+	vv.Assume(!vv.Known("KF-C05-pypi-prefix-one-component", e.Name() == "pypi" && construct == "prefix" && arity == 1))
 	r, er := e.NewVersionRange(sp.rng)
 	vv.Assert(er == nil, "C05: documented shorthand range is rejected")
 	vv.Assume(er == nil)
@@ -255,6 +252,8 @@ func c05Bracket[V univers.Version[V], VR univers.VersionRange[V]](e univers.Ecos
 	vv.Assume(eb == nil)
 	vp, ep := e.NewVersion(probe)
 	vv.Assume(ep == nil)
+	vv.Reached()
+	vv.Assume(!vv.Known("KF-C05-nuget-open-exclusive-bracket", e.Name() == "nuget" && (kind == "(a,)" || kind == "(,b)")))
 	var rng string
 	hasLo, hasHi, loIncl, hiIncl := true, true, true, true
 	exact := false
@@ -305,6 +304,7 @@ func c05Hyphen[V univers.Version[V], VR univers.VersionRange[V]](e univers.Ecosy
 	vv.Assume(eb == nil)
 	vp, ep := e.NewVersion(probe)
 	vv.Assume(ep == nil)
+	vv.Reached()
 	r, er := e.NewVersionRange(a + " - " + b)
 	vv.Assert(er == nil, "C05: hyphen range is rejected")
 	vv.Assume(er == nil)
@@ -316,6 +316,7 @@ func c05PypiNotPrefix[V univers.Version[V], VR univers.VersionRange[V]](e univer
 	x, y := num(xs), num(ys)
 	vp, ep := e.NewVersion(probe)
 	vv.Assume(ep == nil)
+	vv.Reached()
 	vlo, _ := e.NewVersion(dot3(x, y, 0))
 	vhi, _ := e.NewVersion(dot3(x, y+1, 0))
 	vv.Assume(!vv.Known("KF-C05-pypi-not-prefix", true))
